@@ -6,7 +6,7 @@ Go timer semantics, goroutine/descriptor release and the upgrade paths are measu
 import os
 import time
 
-from . import core
+from . import core, cs_stop
 
 
 def retry_run(sc, rs, tier, seed):
@@ -79,7 +79,7 @@ def retry_run(sc, rs, tier, seed):
     return r
 
 
-DL_RUN = {"harness": "hdeadline", "driver": "dldrv", "corpus": "deadline", "fields": ["st", "post", "overdue"], "custom": retry_run,
+DL_RUN = {"harness": "hdeadline", "driver": "dldrv", "corpus": "deadline", "fields": ["st", "post", "overdue", "rt", "wt", "bl"], "custom": retry_run,
           "quick": {"n": 40, "shards": 12}, "thorough": {"n": 96, "shards": 24}}
 
 STOP_RUN = {"harness": "hstop", "driver": "stopdrv", "corpus": "stopsim", "fields": ["stop", "opens", "closes"] + ["c%d" % i for i in range(64)],
@@ -91,9 +91,11 @@ WSCB_RUN = {"harness": "hwscb", "driver": "wscbdrv", "corpus": "wscb", "fields":
 PROPS = {
     "C14": {
         "manifest": {
-            "text": "Lean theorems on (A) the composition of the per-message receive steps with the connection's job queue (the JobQ "
-                    "transition system itself): callback log = prefix of open . msg0..msgk . close, complete when the drainer is "
-                    "idle, open first, close exactly once and last, nothing twice, single drainer; (B) the writer model (direct "
+            "text": "Lean theorems on (A) the composition of the per-message receive steps with the connection's job queue (C05's "
+                    "ExecQ itself, bridge c14_queue_is_execq): completed jobs = prefix of open . msg0..msgk . close, complete "
+                    "when no drainer is left, strictly serial start/end log (every callback ends before the next starts; "
+                    "the open callback has completed before any message callback starts), close exactly once and last, "
+                    "nothing twice, no ws callback at all when the upgrade fails because the conn was closed first; (B) the writer model (direct "
                     "mode and the asynchronous send queue with its drainer, bound, failures and CloseAndClean): for every "
                     "interleaving the conn's frame stream is a prefix of the concatenation of the whole frame groups of the calls "
                     "that returned nil, each at most once, exactly that concatenation when idle and alive; tied to the code by "
@@ -106,7 +108,7 @@ PROPS = {
                     "commit (c14_bounded_queue_partial_counterexample documents the pinned behaviour)",
             "technique": "Lean 4 proof (invariants over two transition systems, one of them an instance of JobQ) + differential "
                          "correspondence with gates at the model's step granularity + sampled real-socket runs"},
-        "lean": ["NbioVerif.Properties.C14"], "drivers": ["wscbdrv"], "harness": ["hwscb"],
+        "lean": ["NbioVerif.Properties.C14"], "drivers": ["wscbdrv"], "harness": ["hwscb"], "cs": cs_stop.C14_CS,
         "runs": [WSCB_RUN],
         "oracles": ["c14-"],
         "rule": "cb case = schedule of upgrade / message arrival / close / callback release on the real poller-driven path; wq case "
@@ -115,7 +117,14 @@ PROPS = {
                 "conn write; e2e case = upgrade path x send mode x (messages, writers, size); distinct by hash of the schedule "
                 "string and outcome; non-trivial iff >= 2 submitters (calls / messages)",
         "assumptions": ["Parse is called by one goroutine at a time per connection (poller or the single read task: C02)",
-                        "nbio.Conn.Execute/MustExecute behave as JobQ (C05 correspondence)",
+                        "the connection's job queue is C05's ExecQ (instance conn): WsCb embeds ExecQ.St and every step performs "
+                        "one ExecQ.step (c14_queue_is_execq); C05's correspondence ties ExecQ to Conn.Execute/MustExecute",
+                        "the close job is submitted once per connection (C03/C18: close callback exactly once)",
+                        "WriteMessage is one step of SendQ: that all fragments are written inside one hold of the ws mutex is "
+                        "the predicates ws_writemessage_locked / ws_writeframe_only_under_lock plus the wd oracle under "
+                        "concurrent callers, not a refinement proof",
+                        "wd cases: the order of the critical sections (order=) is read from the implementation's wire; e2e "
+                        "cases compare the callback log and (whole, groups) summaries",
                         "a client does not send frames before it has received the 101 response",
                         "scheduling-dependent observations are re-run 3 times before they are reported"],
     },
@@ -136,7 +145,7 @@ PROPS = {
                     "notifications are not required at Stop return",
             "technique": "Lean 4 proof (two invariants + termination measure over a transition system) + differential "
                          "correspondence with gated callbacks + real-engine runs under a watchdog"},
-        "lean": ["NbioVerif.Properties.C18"], "drivers": ["stopdrv"], "harness": ["hstop"],
+        "lean": ["NbioVerif.Properties.C18"], "drivers": ["stopdrv"], "harness": ["hstop"], "cs": cs_stop.C18_CS,
         "runs": [STOP_RUN],
         "oracles": ["c18-"],
         "rule": "sim case = op sequence (add, gated new/release, close, eof, hold/release of the close callback, stop) on a "
@@ -147,7 +156,14 @@ PROPS = {
         "assumptions": ["the Async queue is used through its specification (FIFO, exactly once: JobQ instance, C05/C19)",
                         "user handlers closing the conn inside OnOpen are outside the model (lifecycle, C03)",
                         "goroutine/descriptor release: runtime facts, measured with a settle time of up to 5 s",
-                        "fair scheduling of the engine's own goroutines (acceptor continuation, Async drainer, pollers)"],
+                        "fair scheduling of the engine's own goroutines (acceptor continuation, Async drainer, pollers)",
+                        "the user's OnOpen/OnClose/OnStop handlers return (a handler that blocks for ever blocks Stop by design)",
+                        "real-engine cases: the numbers of registered and already closed conns (opened=/closed=) are "
+                        "read from the implementation and given to the model, which then predicts Stop's outcome and the "
+                        "final counts; they are inputs, not compared outputs",
+                        "DialAsync's addDialer-failure path is not executed by the harness (no way to make epoll_ctl fail on "
+                        "a fresh socket); it is tied by the predicates adddialer_failure_detaches_conn / "
+                        "dial_add_before_register_single_done and c18_dialfail_pinned_counterexample"],
     },
     "C16": {
         "manifest": {
@@ -164,7 +180,7 @@ PROPS = {
                     "c16_pinned_stale_counterexample documents the pinned behaviour",
             "technique": "Lean 4 proof (invariant over a transition system with ghost 'deadline in force') + differential "
                          "correspondence on real timers"},
-        "lean": ["NbioVerif.Properties.C16"], "drivers": ["dldrv"], "harness": ["hdeadline"],
+        "lean": ["NbioVerif.Properties.C16"], "drivers": ["dldrv"], "harness": ["hdeadline"], "cs": cs_stop.C16_CS,
         "runs": [DL_RUN],
         "oracles": ["c16-"],
         "rule": "case = op sequence with planned offsets (set/renew/clear/both, writes and flushes with scripted kernel "
